@@ -22,7 +22,7 @@ MUST_REACH = ['xtuml/load.py:ModelLoader.build_metamodel', 'xtuml/load.py:ModelL
 ANCHORS = MUST_REACH
 MIN_NONTRIVIAL = {'quick': 300, 'thorough': 300}
 RULE = ('histories over one loader: 2-5 inputs (fragments of valid files written from random hostile '
-        'schemas and populations), 2-4 builds placed anywhere between them, and 5-25 mutations of '
+        'schemas and populations, some classes without CREATE TABLE so that they are inferred from their rows), 2-4 builds placed anywhere between them, and 5-25 mutations of '
         'randomly chosen built metamodels (new, delete, setattr, relate, unrelate, append/insert/'
         'delete_attribute, define_unique_identifier, define_class); after every mutation all other '
         'metamodels are re-observed, after every build the result is compared with a fresh loader. '
@@ -176,6 +176,11 @@ def fragments(rng):
     pop, _ = sqlgen.resolved_population(rng, schema, max_inst=4)
     stmts = sqlgen.schema_statements(schema)
     rows = [t for _, _, t in sqlgen.insert_statements(schema, pop, rng, named=True)]
+    # some classes come without CREATE TABLE: the loader infers them from their rows on every build
+    used = set(r.src for r in schema.rops) | set(r.tgt for r in schema.rops) | set(u[0] for u in schema.uniques)
+    for kind, attrs in schema.classes:
+        if kind not in used and attrs and pop.rows[kind] and rng.random() < 0.6:
+            stmts = [t for t in stmts if not t.startswith('CREATE TABLE %s (' % kind)]
     rng.shuffle(rows)
     # the schema goes first so that most builds succeed; the rows are spread over later inputs
     n = rng.randint(1, 4)
